@@ -42,6 +42,21 @@ def cores(repo):
             pure={"len": "Py.len", "max": "Py.max"},
             doc="C02: which lines a parsed scan part selects (`Scanner.includes`, `Scanner.is_last`)."),
          [("Scanner", "includes"), ("Scanner", "is_last")]),
+        (py2lean.Core(
+            repo, "ConsiderLine",
+            [("csvpath/csvpath.py", "CsvPath", ["_consider_line", "raise_match_count_if", "stop"]),
+             ("csvpath/util/line_monitor.py", "LineMonitor", ["is_last_line_and_blank"])],
+            heap=True,
+            ignore=LOGGING,
+            opaque={"self.matches": "matches"},
+            oracles={"self.scanner.includes": "includes", "self.scanner.is_last": "is_last"},
+            links={("CsvPath", "self.line_monitor"): "LineMonitor"},
+            pure={"len": "Py.len"},
+            # the timing of the matcher call is bookkeeping outside every property
+            ignore_calls=[r"^time\."],
+            doc="C01/C02/C03/C13/C15: what `CsvPath._consider_line` does with one record (heap mode: attribute writes are state; "
+                "`self.matches(line)` is an opaque call into the matcher, `self.scanner.includes/is_last` are questions to the scanner)."),
+         [("CsvPath", "_consider_line")]),
     ]
 
 
